@@ -1,19 +1,57 @@
 import OpacusLean.Model.ValidateTable
 import OpacusLean.Generated.ValidatorTable
+import OpacusLean.Lemmas.ValidateFix
+/-! # C15 — validation accepts only sample-independent models; `ModuleValidator.fix` is safe and faithful
+
+Statements are about the model in `OpacusLean/Model/Validate.lean` (module trees, `trainable_modules`,
+`ModuleValidator.validate / fix`, the registered validators and fixers, `GradSampleModule.validate`,
+`make_private`'s checks), for **all** module trees.  `Variant` selects, at the four places where the
+code as it stands violates the property (findings D3–D6), between the behaviour as coded and the
+repaired one; each run of the check determines which one the tree under test implements. -/
 namespace Opacus.C15
 open Opacus.Validate
 
 /-! ## The code's finite tables, as extracted on this run -/
 
+/-- the registries hold exactly the validators / fixers the model has -/
 theorem generated_registry_matches_model :
     Generated.validatorKeys = validatorKeys ∧ Generated.fixerKeys = fixerKeys := by decide
 
+/-- the extracted verdict table covers layer type × affine × track_running_stats × trainable × training -/
 theorem generated_table_complete : Generated.rows.map Row.key = tableDomain := by decide +kernel
 
+/-- every verdict of the running code (error classes of `ModuleValidator.validate`, error count of
+`GradSampleModule.validate`) on a single layer is the model's, under the variant detected on this run -/
 theorem generated_table_matches_model : ∀ r ∈ Generated.rows, r.agrees Generated.variant = true := by
   have h : Generated.rows.all (fun r => r.agrees Generated.variant) = true := by decide +kernel
   exact List.all_eq_true.mp h
 
+/-! ## What `make_private` refuses -/
+
+theorem makePrivate_ok_iff (v : Variant) (t : Tree) (opt : List Oid) :
+    makePrivate v t opt = .ok () ↔
+      (∀ p ∈ opt, p ∈ t.paramOids) ∧ mvValidate v t = [] ∧ gsmValidate t = 0 := by
+  unfold makePrivate
+  by_cases h1 : opt.any (fun p => !(t.paramOids.contains p)) = true
+  · rw [if_pos h1]
+    simp only [reduceCtorEq, false_iff, not_and]
+    intro h
+    rw [List.any_eq_true] at h1
+    obtain ⟨p, hp, hc⟩ := h1
+    simp [h p hp] at hc
+  · rw [if_neg h1]
+    have h1' : ∀ p ∈ opt, p ∈ t.paramOids := by
+      intro p hp
+      simp only [List.any_eq_true, not_exists, not_and] at h1
+      simpa using h1 p hp
+    by_cases h2 : mvValidate v t = []
+    · by_cases h3 : gsmValidate t = 0
+      · simp [h2, h3]; exact h1'
+      · have : gsmValidate t > 0 := Nat.pos_of_ne_zero h3
+        simp [h2, h3, this]
+    · simp [h2]
+
+/-- an optimizer holding a parameter that is not one of the model's parameter objects is refused -/
 theorem rejects_foreign_optimizer_params (v : Variant) (t : Tree) (opt : List Oid)
     (h : ∃ p ∈ opt, p ∉ t.paramOids) : makePrivate v t opt = .error .valueError := by
   obtain ⟨p, hp, hn⟩ := h
@@ -22,29 +60,361 @@ theorem rejects_foreign_optimizer_params (v : Variant) (t : Tree) (opt : List Oi
   unfold makePrivate
   rw [if_pos this]
 
+/-- an eval-mode model is refused by validation and hence by `make_private`, whatever else it contains -/
 theorem rejects_eval (v : Variant) (t : Tree) (opt : List Oid) (h : t.info.training = false) :
     ErrC.illegalConfig ∈ mvValidate v t ∧ makePrivate v t opt ≠ .ok () := by
   have h1 : ErrC.illegalConfig ∈ mvValidate v t := by simp [mvValidate, h]
-  refine ⟨h1, ?_⟩
-  unfold makePrivate
-  split
-  · simp
-  · have : mvValidate v t ≠ [] := by intro h0; rw [h0] at h1; simp at h1
-    simp [this]
+  refine ⟨h1, fun hok => ?_⟩
+  rw [makePrivate_ok_iff] at hok
+  rw [hok.2.1] at h1
+  cases h1
+
+/-- a layer that couples the batch or is unsupported: BatchNorm*, LSTM, MultiheadAttention,
+InstanceNorm with running statistics -/
+def unsupported (i : Info) : Bool :=
+  isBN i.ty || i.ty == .lstm || i.ty == .mha || (isIN i.ty && i.cfg.trs)
+
+theorem nodeErrs_of_unsupported {i : Info} (h : unsupported i = true) : nodeErrs i ≠ [] := by
+  obtain ⟨nm, o, ty, ps, bs, tr, cf⟩ := i
+  cases ty <;> simp_all [unsupported, nodeErrs, validatorOf, isBN, isIN]
+
+/-- a model with a *visited* (as coded: trainable) unsupported layer anywhere in the tree is refused -/
+theorem rejects_unsupported_layers (v : Variant) (t : Tree) (opt : List Oid)
+    (h : ∃ e ∈ t.named, unsupported e.2.info = true ∧ walkedP v e.2.info = true) :
+    mvValidate v t ≠ [] ∧ makePrivate v t opt ≠ .ok () := by
+  obtain ⟨e, he, hu, hwk⟩ := h
+  have hmem : e ∈ walked v t := by
+    unfold walked
+    cases hv : v.walkAll
+    · simp only [Bool.false_eq_true, if_false, trainableModules, List.mem_filter]
+      exact ⟨he, by simpa [walkedP, hv] using hwk⟩
+    · simpa using he
+  have h1 : mvValidate v t ≠ [] := by
+    intro h0
+    simp only [mvValidate, List.append_eq_nil_iff, List.flatMap_eq_nil_iff] at h0
+    exact nodeErrs_of_unsupported hu (h0.2 e hmem)
+  refine ⟨h1, fun hok => ?_⟩
+  rw [makePrivate_ok_iff] at hok
+  exact h1 hok.2.1
+
+/-- a trainable module that owns buffers (directly or below it) is refused by the engine's strict check -/
+theorem rejects_trainable_with_buffers (v : Variant) (t : Tree) (opt : List Oid)
+    (h : ∃ e ∈ t.named, e.2.info.trainable = true ∧ e.2.bufCount > 0) : makePrivate v t opt ≠ .ok () := by
+  obtain ⟨e, he, ht, hb⟩ := h
+  intro hok
+  rw [makePrivate_ok_iff] at hok
+  have : e ∈ (trainableModules t).filter (fun e => e.2.bufCount > 0) := by
+    simp only [trainableModules, List.mem_filter]
+    exact ⟨⟨he, ht⟩, by simpa using hb⟩
+  have hlen := hok.2.2
+  simp only [gsmValidate, List.length_eq_zero_iff] at hlen
+  rw [hlen] at this
+  cases this
+
+/-! ## What validation accepts -/
+
+theorem node_independent_of_ok {i : Info} (hok : nodeErrs i = []) (hb : bufWF i = true) :
+    nodeIndependent i = true := by
+  obtain ⟨nm, o, ty, ps, bs, tr, cf⟩ := i
+  cases ty <;> simp_all [nodeErrs, validatorOf, nodeIndependent, couples, updatesStats, bufWF, isBN, isIN]
+
+theorem node_independent_of_plain {i : Info} (h1 : isBN i.ty = false) (h2 : isIN i.ty = false) :
+    nodeIndependent i = true := by
+  simp [nodeIndependent, couples, updatesStats, h1, h2]
+
+/-- **accepts_implies_independent** (general form).  A tree that `ModuleValidator.validate` accepts
+is sample-independent, provided normalisation layers own running-stat buffers only when their flag
+says so (torch's constructors guarantee that) and — when the validators only visit trainable
+modules — provided every normalisation layer is trainable. -/
+theorem accepts_implies_independent_general (v : Variant) (t : Tree) (hacc : mvValidate v t = [])
+    (hbuf : ∀ e ∈ t.named, bufWF e.2.info = true)
+    (hcov : v.walkAll = false → ∀ e ∈ t.named, (isBN e.2.info.ty || isIN e.2.info.ty) = true → e.2.info.trainable = true) :
+    independent t := by
+  intro e he
+  simp only [mvValidate, List.append_eq_nil_iff, List.flatMap_eq_nil_iff] at hacc
+  by_cases hn : (isBN e.2.info.ty || isIN e.2.info.ty) = true
+  · have hmem : e ∈ walked v t := by
+      unfold walked
+      cases hv : v.walkAll
+      · simp only [Bool.false_eq_true, if_false, trainableModules, List.mem_filter]
+        exact ⟨he, hcov hv e he hn⟩
+      · simpa using he
+    exact node_independent_of_ok (hacc.2 e hmem) (hbuf e he)
+  · simp only [Bool.or_eq_true, not_or, Bool.not_eq_true] at hn
+    exact node_independent_of_plain hn.1 hn.2
+
+/-- **accepts_implies_independent** — the property at full strength; it holds for the *repaired*
+validators (every module visited).  For the code as it stands its negation is proved below. -/
+theorem accepts_implies_independent (t : Tree) (hacc : mvValidate repaired t = [])
+    (hbuf : ∀ e ∈ t.named, bufWF e.2.info = true) : independent t :=
+  accepts_implies_independent_general repaired t hacc hbuf (fun h => by cases h)
+
+/-- whatever `make_private` accepts, validation accepts -/
+theorem makePrivate_accepts_implies_independent (t : Tree) (opt : List Oid)
+    (hacc : makePrivate repaired t opt = .ok ()) (hbuf : ∀ e ∈ t.named, bufWF e.2.info = true) : independent t :=
+  accepts_implies_independent t ((makePrivate_ok_iff _ _ _).mp hacc).2.1 hbuf
+
+/-- as coded: only for trees in which every normalisation layer owns a trainable parameter -/
+theorem accepts_implies_independent_partial (t : Tree) (hacc : mvValidate asCoded t = [])
+    (hbuf : ∀ e ∈ t.named, bufWF e.2.info = true)
+    (hcov : ∀ e ∈ t.named, (isBN e.2.info.ty || isIN e.2.info.ty) = true → e.2.info.trainable = true) :
+    independent t :=
+  accepts_implies_independent_general asCoded t hacc hbuf (fun _ => hcov)
+
+/-! ### witnesses -/
 
 def linearLeaf (k : Nat) (name : String) : Tree :=
   ⟨{ name := .s name, oid := .orig k, ty := .linear,
      params := [⟨"weight", .orig (k+1), .tok (k+1), true⟩, ⟨"bias", .orig (k+2), .tok (k+2), true⟩] }, .nil⟩
 
-def bnAffineFalse : Tree :=
-  ⟨{ oid := .orig 0, ty := .seq },
-   Forest.ofList [linearLeaf 1 "0",
-     ⟨{ name := .s "1", oid := .orig 4, ty := .bn1, cfg := { numFeatures := 4, affine := false, trs := true },
-        buffers := [⟨"running_mean", .orig 5, .tok 5⟩, ⟨"running_var", .orig 6, .tok 6⟩, ⟨"num_batches_tracked", .orig 7, .tok 7⟩] }, .nil⟩]⟩
+def normLeaf (ty : Ty) (k : Nat) (name : String) (affine trs : Bool) (reqGrad : Bool := true) : Tree :=
+  ⟨{ name := .s name, oid := .orig k, ty := ty, cfg := { numFeatures := 4, affine := affine, trs := trs },
+     params := if affine then [⟨"weight", .orig (k+1), .tok (k+1), reqGrad⟩, ⟨"bias", .orig (k+2), .tok (k+2), reqGrad⟩] else [],
+     buffers := if trs then [⟨"running_mean", .orig (k+3), .tok (k+3)⟩, ⟨"running_var", .orig (k+4), .tok (k+4)⟩,
+                             ⟨"num_batches_tracked", .orig (k+5), .tok (k+5)⟩] else [] }, .nil⟩
 
+def seq2 (a b : Tree) : Tree := ⟨{ oid := .orig 0, ty := .seq }, Forest.ofList [a, b]⟩
+
+/-- `Sequential(Linear(4,4), BatchNorm1d(4, affine=False))` -/
+def bnAffineFalse : Tree := seq2 (linearLeaf 1 "0") (normLeaf .bn1 4 "1" false true)
+/-- `Sequential(Linear(4,4), BatchNorm1d(4).requires_grad_(False))` -/
+def bnFrozen : Tree := seq2 (linearLeaf 1 "0") (normLeaf .bn1 4 "1" true true false)
+/-- `Sequential(Linear(4,4), InstanceNorm1d(4, affine=False, track_running_stats=True))` -/
+def inTrsNoAffine : Tree := seq2 (linearLeaf 1 "0") (normLeaf .in1 4 "1" false true)
+
+/-- D3: accepted by both validators and by `make_private`, yet the BatchNorm couples the batch and
+updates its running statistics; constructor-consistent buffers, so the full statement fails as coded -/
 theorem bn_affine_false_counterexample :
     mvValidate asCoded bnAffineFalse = [] ∧ gsmValidate bnAffineFalse = 0 ∧
     makePrivate asCoded bnAffineFalse [.orig 2, .orig 3] = .ok () ∧
-    (∃ e ∈ bnAffineFalse.named, couples e.2.info = true ∧ updatesStats e.2.info = true) := by
-  refine ⟨by decide, by decide, by decide, ?_⟩
+    (∀ e ∈ bnAffineFalse.named, bufWF e.2.info = true) ∧
+    (∃ e ∈ bnAffineFalse.named, couples e.2.info = true ∧ updatesStats e.2.info = true) ∧
+    mvValidate repaired bnAffineFalse = [.shouldReplace] := by
+  refine ⟨by decide, by decide, by decide, by decide, by decide, by decide⟩
+
+/-- D3 (frozen variant): `requires_grad_(False)` on a BatchNorm hides it from both validators -/
+theorem bn_frozen_counterexample :
+    mvValidate asCoded bnFrozen = [] ∧ makePrivate asCoded bnFrozen [.orig 2, .orig 3] = .ok () ∧
+    (∀ e ∈ bnFrozen.named, bufWF e.2.info = true) ∧
+    (∃ e ∈ bnFrozen.named, couples e.2.info = true ∧ updatesStats e.2.info = true) ∧
+    mvValidate repaired bnFrozen = [.shouldReplace] := by
+  refine ⟨by decide, by decide, by decide, by decide, by decide⟩
+
+/-- D4: InstanceNorm with running statistics and no affine parameters is accepted -/
+theorem in_trs_no_affine_counterexample :
+    mvValidate asCoded inTrsNoAffine = [] ∧ makePrivate asCoded inTrsNoAffine [.orig 2, .orig 3] = .ok () ∧
+    (∀ e ∈ inTrsNoAffine.named, bufWF e.2.info = true) ∧
+    (∃ e ∈ inTrsNoAffine.named, couples e.2.info = false ∧ updatesStats e.2.info = true) ∧
+    mvValidate repaired inTrsNoAffine = [.illegalConfig] := by
+  refine ⟨by decide, by decide, by decide, by decide, by decide⟩
+
+/-- the full statement is false for the code as it stands -/
+theorem accepts_implies_independent_asCoded_fails :
+    ¬ (∀ t : Tree, mvValidate asCoded t = [] → (∀ e ∈ t.named, bufWF e.2.info = true) → independent t) := by
+  intro h
+  have := h bnAffineFalse (by decide) (by decide) ([.s "1"], (normLeaf .bn1 4 "1" false true)) (by decide)
+  revert this
   decide
+
+/-- non-vacuity of the hypotheses of `accepts_implies_independent(_partial)`:
+`Sequential(Linear, InstanceNorm1d(affine=True))` -/
+example : mvValidate repaired (seq2 (linearLeaf 1 "0") (normLeaf .in1 4 "1" true false)) = [] ∧
+    mvValidate asCoded (seq2 (linearLeaf 1 "0") (normLeaf .in1 4 "1" true false)) = [] ∧
+    (∀ e ∈ (seq2 (linearLeaf 1 "0") (normLeaf .in1 4 "1" true false)).named, bufWF e.2.info = true) ∧
+    (∀ e ∈ (seq2 (linearLeaf 1 "0") (normLeaf .in1 4 "1" true false)).named,
+      (isBN e.2.info.ty || isIN e.2.info.ty) = true → e.2.info.trainable = true) := by
+  refine ⟨by decide, by decide, by decide, by decide⟩
+
+
+/-! ## `ModuleValidator.fix` -/
+
+theorem mem_walked {v : Variant} {t : Tree} {e : Path × Tree} :
+    e ∈ walked v t ↔ e ∈ t.named ∧ walkedP v e.2.info = true := by
+  unfold walked walkedP
+  cases v.walkAll <;> simp [trainableModules, List.mem_filter]
+
+/-- **fix_then_validate_ok**: for every tree (sibling names distinct, root in training mode) and all
+keyword options, whenever `fix` returns, its result passes `ModuleValidator.validate` -/
+theorem fix_then_validate_ok (v : Variant) (kw : Kw) (t t' : Tree) (hw : t.WF) (htr : t.info.training = true)
+    (h : fix v kw t = .ok t') : mvValidate v t' = [] := by
+  unfold fix at h
+  have h0 : InvV v (fixNames v t) (cloneModule 0 t) := by
+    refine ⟨?_, htr, ?_⟩
+    · simp only [Tree.WF, cloneModule, Tree.mapOid, Forest.wf_mapOid]; exact hw
+    · intro q s hq hb
+      simp only [fixNames, List.mem_map]
+      refine ⟨(q, s), mem_walked.mpr ⟨mem_named_of_subAt hq, ?_⟩, rfl⟩
+      simp only [badNode, Bool.and_eq_true] at hb
+      exact hb.1
+  obtain ⟨hw', htr', hbad⟩ := fixLoop_inv (InvV v) invV_fix invV_skip _ _ _ _ h0 h
+  simp only [mvValidate, htr', if_true, List.nil_append, List.flatMap_eq_nil_iff]
+  intro e he
+  obtain ⟨hn, hwk⟩ := mem_walked.mp he
+  have hsub := subAt_of_mem_named hw' hn
+  by_cases hok : okNode e.2.info = true
+  · exact okNode_iff.mp hok
+  · have := hbad e.1 e.2 hsub (by simp [badNode, hwk, hok])
+    cases this
+
+/-- **fix_pure**: every module, parameter and buffer object of the result is fresh — `fix` never
+returns (nor, therefore, mutates through its result) an object of its argument -/
+theorem fix_pure (v : Variant) (kw : Kw) (t t' : Tree) (h : fix v kw t = .ok t') :
+    ∀ o ∈ t'.oids, o.isOrig = false := by
+  unfold fix at h
+  have h0 : (cloneModule 0 t).all freshNode = true := by
+    have hf : (fun i : Info => freshNode (i.mapOid (Oid.clone 0))) = fun _ => true := by
+      funext i
+      simp [freshNode, Info.oids, Info.mapOid, Oid.isOrig, List.all_map, Function.comp_def]
+    simp only [cloneModule, Tree.mapOid, Tree.all, Bool.and_eq_true, Forest.all_mapOid, hf]
+    constructor
+    · exact congrFun hf t.info
+    · generalize t.kids = k
+      induction k with
+      | nil => rfl
+      | cons i kk r ihk ihr => simp [Forest.all, ihk, ihr]
+  have hall : t'.all freshNode = true :=
+    fixLoop_inv (fun _ w => w.all freshNode = true)
+      (fun p ps w g m r w1 hI hm hty hf hr =>
+        all_replaceAt freshNode_name hI ((fixer_spec hf hty).2.2.2.2 (all_subAt hI hm)) hr)
+      (fun p ps w m hI _ _ => hI) _ _ _ _ h0 h
+  intro o ho
+  simp only [Tree.oids, List.mem_flatMap] at ho
+  obtain ⟨e, he, hoe⟩ := ho
+  have := all_named.mp hall e he
+  simp only [freshNode, List.all_eq_true] at this
+  simpa using this o hoe
+
+/-- consequence: an optimizer built on the parameters of the *unfixed* model is refused after `fix` -/
+theorem fix_then_old_optimizer_rejected (v v' : Variant) (kw : Kw) (t t' : Tree) (opt : List Oid)
+    (h : fix v kw t = .ok t') (hopt : ∃ p ∈ opt, p.isOrig = true) :
+    makePrivate v' t' opt = .error .valueError := by
+  obtain ⟨p, hp, hpo⟩ := hopt
+  apply rejects_foreign_optimizer_params
+  refine ⟨p, hp, fun hmem => ?_⟩
+  have : p ∈ t'.oids := by
+    simp only [Tree.paramOids, List.mem_flatMap, List.mem_map] at hmem
+    obtain ⟨e, he, q, hq, rfl⟩ := hmem
+    simp only [Tree.oids, List.mem_flatMap]
+    exact ⟨e, he, by simp only [Info.oids, List.mem_cons, List.mem_append, List.mem_map]; exact Or.inr (Or.inl ⟨q, hq, rfl⟩)⟩
+  rw [fix_pure v kw t t' h p this] at hpo
+  cases hpo
+
+/-- `q` is neither at nor below a module that `fix` visits and has a fixer for -/
+def untouched (v : Variant) (t : Tree) (q : Path) : Prop :=
+  ∀ q0, q0 <+: q → ∀ i, infoAt q0 t = some i → ¬ (walkedP v i = true ∧ fixerKeys.contains i.ty = true)
+
+/-- **fix_preserves_other_params**: a module that is not at or below a replaced one is, in the
+result, at the same name the clone of what it was: same type, flags, mode, the same parameters and
+buffers under the same names in the same order with the same values and `requires_grad` -/
+theorem fix_preserves_other_params (v : Variant) (kw : Kw) (t t' : Tree) (hw : t.WF) (h : fix v kw t = .ok t')
+    (q : Path) (hq : untouched v t q) : infoAt q t' = (infoAt q t).map (Info.mapOid (.clone 0)) := by
+  unfold fix at h
+  let Inv : List Path → Tree → Prop := fun ps w =>
+    (∀ p ∈ ps, ∃ i, infoAt p t = some i ∧ walkedP v i = true) ∧
+    ∀ q, untouched v t q → infoAt q w = (infoAt q t).map (Info.mapOid (.clone 0))
+  have h0 : Inv (fixNames v t) (cloneModule 0 t) := by
+    constructor
+    · intro p hp
+      simp only [fixNames, List.mem_map] at hp
+      obtain ⟨e, he, rfl⟩ := hp
+      obtain ⟨hn, hwk⟩ := mem_walked.mp he
+      simp only [cloneModule, named_mapOid, List.mem_map] at hn
+      obtain ⟨e0, he0, rfl⟩ := hn
+      refine ⟨e0.2.info, ?_, by simpa [walkedP, Tree.mapOid] using hwk⟩
+      simp only [infoAt, subAt_of_mem_named hw he0, Option.map_some]
+    · intro q _
+      simp only [infoAt, cloneModule, subAt_mapOid, Option.map_map]
+      rfl
+  have hfin := fixLoop_inv Inv
+    (fun p ps w g m r w1 hI hm hty hf hr => by
+      refine ⟨fun p' hp' => hI.1 p' (List.mem_cons_of_mem _ hp'), fun q hq => ?_⟩
+      by_cases hpq : p <+: q
+      · exfalso
+        obtain ⟨i0, hi0, hwk⟩ := hI.1 p (List.mem_cons_self ..)
+        have hp : untouched v t p := fun q0 hq0 => hq q0 (hq0.trans hpq)
+        have := hI.2 p hp
+        rw [hi0] at this
+        simp only [infoAt, hm, Option.map_some, Option.some.injEq] at this
+        refine hq p hpq i0 hi0 ⟨hwk, ?_⟩
+        rw [this] at hty
+        exact hty
+      · rw [infoAt_replaceAt_other hr hpq]
+        exact hI.2 q hq)
+    (fun p ps w m hI _ _ => ⟨fun p' hp' => hI.1 p' (List.mem_cons_of_mem _ hp'), hI.2⟩) _ _ _ _ h0 h
+  exact hfin.2 q hq
+
+/-- **replace_root**: `_replace_sub_module` with the root's (empty) name returns the new module itself -/
+theorem replace_root (root new : Tree) : replaceSub root [] new = some new := rfl
+
+/-- … and so `fix` of a root-level replaceable layer returns the replacement, here
+`fix(nn.LSTM(bias=True))` = DPLSTM with the LSTM's weights under the LSTM's names -/
+def rootLSTM : Tree :=
+  ⟨{ oid := .orig 0, ty := .lstm,
+     params := [⟨"weight_ih_l0", .orig 1, .tok 1, true⟩, ⟨"weight_hh_l0", .orig 2, .tok 2, true⟩,
+                ⟨"bias_ih_l0", .orig 3, .tok 3, true⟩, ⟨"bias_hh_l0", .orig 4, .tok 4, true⟩] }, .nil⟩
+
+theorem replace_root_lstm :
+    ∃ t', fix asCoded {} rootLSTM = .ok t' ∧ t'.info.ty = .dplstm ∧
+      t'.info.params.map (·.name) = ["weight_ih_l0", "bias_ih_l0", "weight_hh_l0", "bias_hh_l0"] ∧
+      t'.info.params.map (·.val) = [.tok 1, .tok 3, .tok 2, .tok 4] ∧
+      mvValidate asCoded t' = [] ∧ gsmValidate t' = 0 :=
+  ⟨_, rfl, by decide⟩
+
+/-- the default BatchNorm → GroupNorm replacement never fails: `gcd(32, C)` divides `C` -/
+theorem bn_default_groups_valid (g : Nat) (m : Tree) (hc : 0 < m.info.cfg.numFeatures) :
+    ∃ r, fixBN {} g m = .ok r ∧ r.info.ty = .gn ∧ r.info.cfg.numGroups = Nat.gcd 32 m.info.cfg.numFeatures := by
+  have h1 : Nat.gcd 32 m.info.cfg.numFeatures ≠ 0 := Nat.ne_of_gt (Nat.gcd_pos_of_pos_right _ hc)
+  have h2 : m.info.cfg.numFeatures % Nat.gcd 32 m.info.cfg.numFeatures = 0 :=
+    Nat.mod_eq_zero_of_dvd (Nat.gcd_dvd_right _ _)
+  simp [fixBN, h1, h2, leaf]
+
+/-! ### witnesses for D5 / D6 -/
+
+/-- `InstanceNorm1d(4, affine=True, track_running_stats=True)` as root -/
+def inTrsAffine : Tree := normLeaf .in1 0 "" true true
+
+/-- D6: the "fixed" InstanceNorm passes `ModuleValidator.validate` but keeps its buffers: the engine's
+strict check refuses it and its running statistics are still updated.  Repaired fixer: accepted and
+independent. -/
+theorem fixed_in_keeps_buffers_counterexample :
+    (∃ t', fix asCoded {} inTrsAffine = .ok t' ∧ mvValidate asCoded t' = [] ∧ gsmValidate t' = 1 ∧
+        updatesStats t'.info = true ∧ bufWF t'.info = false ∧
+        makePrivate asCoded t' (t'.paramOids) = .error (.notImplemented 1)) ∧
+    (∃ t', fix repaired {} inTrsAffine = .ok t' ∧ makePrivate repaired t' (t'.paramOids) = .ok () ∧
+        nodeIndependent t'.info = true ∧ bufWF t'.info = true) :=
+  ⟨⟨_, rfl, by decide⟩, ⟨_, rfl, by decide⟩⟩
+
+/-- `Sequential(BatchNorm1d(4), LSTM(…))` -/
+def bnThenLstm : Tree := seq2 (normLeaf .bn1 10 "0" true true) { rootLSTM with info := { rootLSTM.info with name := .s "1" } }
+
+/-- D5: a documented keyword option makes `fix` raise `TypeError` as soon as the model contains a
+trainable InstanceNorm / LSTM / MultiheadAttention; repaired fixers ignore it -/
+theorem fix_kwargs_counterexample :
+    fix asCoded { numGroups := some 1 } (normLeaf .in1 0 "" true false) = .error .typeError ∧
+    fix asCoded { numGroups := some 2 } bnThenLstm = .error .typeError ∧
+    (∃ t', fix repaired { numGroups := some 2 } bnThenLstm = .ok t' ∧ mvValidate repaired t' = [] ∧
+        (infoAt [.s "0"] t').map (·.cfg.numGroups) = some 2) :=
+  ⟨by decide, by decide, ⟨_, rfl, by decide⟩⟩
+
+/-- non-vacuity of `fix_then_validate_ok` / `fix_preserves_other_params` on a tree with a replaced
+and an untouched module: `Sequential(Linear, BatchNorm1d(4))` -/
+example : (seq2 (linearLeaf 1 "0") (normLeaf .bn1 4 "1" true true)).WF ∧
+    ∃ t', fix asCoded {} (seq2 (linearLeaf 1 "0") (normLeaf .bn1 4 "1" true true)) = .ok t' ∧
+      (infoAt [.s "1"] t').map (·.ty) = some .gn ∧
+      infoAt [.s "0"] t' = some ((linearLeaf 1 "0").info.mapOid (.clone 0)) :=
+  ⟨by decide, _, rfl, by decide⟩
+
+example : untouched asCoded (seq2 (linearLeaf 1 "0") (normLeaf .bn1 4 "1" true true)) [.s "0"] := by
+  intro q0 hq0 i hi
+  have : q0 = [] ∨ q0 = [.s "0"] := by
+    rcases hq0 with ⟨r, hr⟩
+    cases q0 with
+    | nil => exact Or.inl rfl
+    | cons a q0 =>
+      right
+      cases q0 with
+      | nil => simp at hr; simp [hr.1]
+      | cons b q0 => simp at hr
+  rcases this with rfl | rfl <;> (simp [infoAt, subAt, seq2, Forest.ofList, Forest.find, linearLeaf] at hi; subst hi; decide)
+
+end Opacus.C15
